@@ -1,4 +1,5 @@
 """C10 MTBDD arithmetic — terminal/base cases of every operator (E-TABLE) ..."""
+import edm
 import elin
 import ector
 import ecof
@@ -76,4 +77,8 @@ def run(ctx):
                 "creation; the remaining sites are the reviewed raw constructors and ownership transfers; a new site is reported.")
     n = elin.check_mint(ctx, F)
     ctx.floor("E-LIN.mint", "edge-creating functions inventoried", n, 22)
+    ctx.explain("E-CACHE.dm: the results of the recursion are memoised in the direct-mapped apply cache, which holds uncounted "
+                "edges: it compares and hashes all key parts, and every entry is cleared (under its lock) in pre_gc / before a "
+                "reordering, so that no entry survives the collection of one of its nodes and is served for a recycled id.")
+    edm.run(ctx, F)
     ctx.not_decided = "non-overflow arithmetic of the terminal types, Div rounding, float behaviour"
